@@ -38,22 +38,30 @@ def run(chk: core.Check, tier: str, seed: int) -> None:
             for ret in "VLN":
                 sigs.append((list(params), ret))
     per_sig = 14 if tier == "quick" else 400
+    worlds = []
     for params, ret in sigs:
         full = [("f", params, ret)] + HELPERS + [("gl2", ["L"], "L")]
-        reg = probes.reg_records(full)
         log = []
-        env = probes.make_env(jp, full, log)
+        worlds.append((params, ret, probes.reg_records(full), log, probes.make_env(jp, full, log)))
+    jobs = []
+    for w, (params, ret, reg, log, env) in enumerate(worlds):
         for _ in range(per_sig):
             k = rng.random()
             nargs = len(params) if k < 0.9 else rng.choice([0, 1, 2, 3])
             call = "f(" + ", ".join(rng.choice(SHAPES) for _ in range(nargs)) + ")"
             if rng.random() < 0.05:
                 call = "zz" + call[1:]
-            q = rng.choice(POSITIONS).format(c=call)
-            del log[:]
-            rec = impl.rec_compile(jp, q, env=env, extra={"reg": reg})
-            rec["ncalls"] = len(log)
-            recs.append(rec)
+            jobs.append((w, rng.choice(POSITIONS).format(c=call)))
+    rng.shuffle(jobs)
+    for w, q in jobs:
+        params, ret, reg, log, env = worlds[w]
+        del log[:]
+        rec = impl.rec_compile(jp, q, env=env, extra={"reg": reg})
+        rec["ncalls"] = len(log)
+        recs.append(rec)
+    # the module-level default environment knows none of the probes
+    for q in ["$[?f(@.a)]", "$[?kv(@.a) == 1]", "$[?gl(@.a)]", "$[?hn(@.*)]", "$[?length(@.a) == 1]"]:
+        recs.append(impl.rec_compile(jp, q))
     # built-ins only, default environment
     for sh in SHAPES:
         for pos in POSITIONS:
